@@ -1,7 +1,8 @@
 (* Props_C01.v — the property theorems for C01 and nothing else.
    C01: "Point reads return the latest write, whatever the tree did in between". *)
 From Coq Require Import NArith List.
-From Blue Require Import Gen.Const_Lsm Lsm.Model Lsm.LoadProofs Lsm.Ordered Lsm.CompactProofs Lsm.GcProofs Lsm.WfProofs Lsm.History Lsm.RecoverImpossible.
+From Blue Require Import Gen.Const_Lsm Lsm.Model Lsm.LoadProofs Lsm.Ordered Lsm.CompactProofs Lsm.GcProofs Lsm.WfProofs Lsm.History Lsm.RecoverImpossible
+  Lsm.ModelConcurrent Lsm.ConcStable Lsm.ConcInv Lsm.ConcurrentProofs.
 Import ListNotations.
 Open Scope N_scope.
 
@@ -101,3 +102,84 @@ Proof. vm_compute. reflexivity. Qed.
 
 Example ex_reads : map (get (run (init_at 2) ex_ops)) [[1]; [2]; [3]; [4]] = [None; None; Some [30]; None].
 Proof. vm_compute. reflexivity. Qed.
+
+(* ---------------- several compactions ongoing at once ---------------- *)
+
+(* K compaction threads: a compaction is selected on one version (admissible there, not overlapping
+   any ongoing one: may_choose_compaction / CompactionCore::overlapping) and applied to whatever
+   version is current later.  For EVERY accepted history - any number of ongoing compactions, any
+   interleaving of selects, applies in any order, releases, writes, flushes, ingests, atomic
+   compactions, garbage collections, reopens - a point read returns the last write. *)
+Theorem C01_concurrent_reads_return_latest_write : forall n ops k,
+  caccepted (cinit_at n) ops = true -> get (st (crun (cinit_at n) ops)) k = cspec ops k.
+Proof. exact concurrent_reads_return_latest_write. Qed.
+
+(* every apply happens on a version on which the compaction is admissible, and the entries read
+   at selection time are the entries that version holds under the input ids *)
+Theorem C01_concurrent_apply_is_valid : forall n ops, caccepted (cinit_at n) ops = true ->
+  forall v c E, In (v, (c, E)) (applies (cinit_at n) ops) ->
+  valid_compactionb v c = true /\ input_entries v c = E.
+Proof. exact concurrent_apply_is_valid. Qed.
+
+Theorem C01_concurrent_invariant_reachable : forall n ops, caccepted (cinit_at n) ops = true ->
+  CInv (crun (cinit_at n) ops).
+Proof. exact concurrent_invariant_reachable. Qed.
+
+(* the input files of an ongoing compaction stay in the tree *)
+Theorem C01_concurrent_inputs_stay : forall n ops, caccepted (cinit_at n) ops = true ->
+  forall c E x, In (c, E) (pending (crun (cinit_at n) ops)) -> In x (cinputs c) ->
+  exists f, In f (flat (ver (st (crun (cinit_at n) ops)))) /\ fid f = x.
+Proof. exact concurrent_inputs_stay. Qed.
+
+(* the mechanism: applying an admissible compaction (or garbage collection) d that does not
+   overlap c (level range AND key range) leaves c admissible with the same input files *)
+Theorem C01_conflict_exclusion_keeps_admissible : forall v c d outs,
+  wf_version v -> wf_version (apply_compaction v d outs) ->
+  valid_compactionb v c = true -> valid_compactionb v d = true ->
+  conflictb c d = false ->
+  (forall o, In o outs -> is_input c o = false /\
+     key_leb (cfirst d) (first_key o) = true /\ key_leb (last_key o) (clast d) = true) ->
+  valid_compactionb (apply_compaction v d outs) c = true /\
+  input_files (apply_compaction v d outs) c = input_files v c.
+Proof. exact apply_other_stable. Qed.
+
+(* ... and so does pushing a file that L0's lookup order consults first (flush, accepted ingest) *)
+Theorem C01_l0_push_keeps_admissible : forall v c f,
+  v <> [] -> wf_version v -> wf_version (set_nth 0 (hd [] v ++ [f]) v) ->
+  l0_order (hd [] v ++ [f]) = f :: l0_order (hd [] v) ->
+  valid_compactionb v c = true -> is_input c f = false ->
+  valid_compactionb (set_nth 0 (hd [] v ++ [f]) v) c = true /\
+  input_files (set_nth 0 (hd [] v ++ [f]) v) c = input_files v c.
+Proof. exact push_l0_stable. Qed.
+
+(* the exclusion is needed: without may_choose_compaction's conflict loop there is a history in
+   which every selection is admissible where it is made and every output is right for its inputs,
+   yet a read returns a stale value (and the second apply is inadmissible where it happens) *)
+Theorem C01_concurrent_needs_conflict_exclusion :
+  caccepted_gen false (cinit_at 0) cbad_ops = true /\
+  caccepted (cinit_at 0) cbad_ops = false /\
+  get (st (crun (cinit_at 0) cbad_ops)) [1] = Some [10] /\ cspec cbad_ops [1] = Some [11] /\
+  map (fun vp => valid_compactionb (fst vp) (fst (snd vp))) (applies (cinit_at 0) cbad_ops) = [true; false].
+Proof. exact concurrent_needs_conflict_exclusion. Qed.
+
+(* non-vacuity: two ongoing L0->L1 compactions over disjoint key ranges, a flush in between,
+   applied in the opposite order of selection *)
+Example C01_concurrent_example_accepted : caccepted (cinit_at 0) cex_ops = true.
+Proof. exact cex_accepted. Qed.
+Example C01_concurrent_example_reads :
+  map (get (st (crun (cinit_at 0) cex_ops))) [[1]; [2]; [5]; [6]; [7]; [8]] =
+  [Some [11]; Some [21]; None; None; Some [70]; None] /\
+  map (cspec cex_ops) [[1]; [2]; [5]; [6]; [7]; [8]] = [Some [11]; Some [21]; None; None; Some [70]; None].
+Proof. exact cex_reads. Qed.
+
+(* the id condition of the concurrent model (a file entering the tree does not carry the id of an
+   input of an ongoing compaction; in the real store an id is the setsum of the content) is needed *)
+Theorem C01_concurrent_needs_fresh_ids :
+  caccepted (cinit_at 0) cfresh_pre = true /\
+  acceptedb (st (crun (cinit_at 0) cfresh_pre)) (OFlush 100 50) = true /\
+  fresh_forb (pending (crun (cinit_at 0) cfresh_pre))
+             (added_files (st (crun (cinit_at 0) cfresh_pre)) (OFlush 100 50)) = false /\
+  cacceptedb (cstep (crun (cinit_at 0) cfresh_pre) (CBase (OFlush 100 50)))
+             (CApply 0 [mkF 100 [mkE [1] 1 (Some [10])] 50]) = true /\
+  get (st (crun (cinit_at 0) cfresh_ops)) [1] = Some [10] /\ cspec cfresh_ops [1] = Some [11].
+Proof. exact concurrent_needs_fresh_ids. Qed.
